@@ -44,6 +44,15 @@ pub fn exec(case: &Value) -> Value {
         for op in case["ops"].as_array().cloned().unwrap_or_default() {
             let k = op["k"].as_str().unwrap_or("");
             let o = match k {
+                "tpl" if op.get("docs").is_some() => {
+                    // one text holding several template documents
+                    let mut text = String::new();
+                    for d in op["docs"].as_array().cloned().unwrap_or_default() {
+                        let items: Vec<String> = d.as_array().map(|a| a.iter().map(|e| format!("{}: {}", yq(e[0].as_str().unwrap_or("")), yq(e[1].as_str().unwrap_or("")))).collect()).unwrap_or_default();
+                        text.push_str(&format!("---\n{{{}}}\n", items.join(", ")));
+                    }
+                    res(c.load_templates_from_str(text), |_| json!("ok"))
+                }
                 "tpl" => {
                     let items: Vec<String> = op["doc"]
                         .as_array()
@@ -264,6 +273,9 @@ pub fn gen(tier: &str, seed: u64, out: &mut dyn FnMut(Value)) {
             json!({"k": "load", "docs": [rule("UV", &[("$a", ".x == '{{u}}{{v}}{{t}}{{w}}'")], Some("$a"))]}),
             json!({"k": "load", "docs": [rule("A", &[("$a", ".x == 'a{{{t}}}b'"), ("$b", ".y == '{{{{t}}}}{{t}}}'")], Some("$a or $b"))]}),
             json!({"k": "compile"}),
+            // several template documents in one text: the documents before a rejected one stay loaded
+            json!({"k": "tpl", "docs": [[["u", "7"]], [["t", "8"], ["v", "6"]]]}),
+            json!({"k": "tpl", "docs": [[["w", "5"]], [["w", "4"]], [["v", "3"]]]}),
             // malformed as loaded unless `p` is defined at that moment; a template arriving later does not repair it
             json!({"k": "load", "docs": [rule("P", &[("$a", "{{p}} == 'x'")], Some("$a"))]}),
             json!({"k": "tpl", "doc": [["p", ".x"]]}),
